@@ -431,11 +431,9 @@ theorem src_draw_sub_image_stream (fuel : Nat) (C : RawTy) (O : DataOrderTy) (s 
     exact (pixel_src_eq_model C O s _ h.bytes h.usz h.isU32).symm
 example : (toIm .RawU1 .LittleEndianMsb0 ⟨[0xAA, 0x00, 0x55, 0xFF, 0xAA, 0x80], ⟨9, 3⟩⟩).Accepts ⟨⟨6, 1⟩, ⟨3, 2⟩⟩ := by decide
 
-/-- What the translator left out of src/image/*.rs is exactly this: `new_const` (a `panic!` arm and a struct pattern) and
-`translate_mut` (returns `&mut Self`). An added function or override in any impl of these files shows up here. -/
+/-- What the translator left out of src/image/*.rs is exactly this: `new_const` (a `panic!` arm and a struct pattern;
+`Ok` of `new` or a panic). An added function or override in any impl of these files shows up here. -/
 theorem img_untranslated_pinned :
-    ImgSrc.untranslated =
-      [("impl Transform for Image", ["translate_mut"]),
-       ("impl ImageRaw", ["new_const"])] := by decide
+    ImgSrc.untranslated = [("impl ImageRaw", ["new_const"])] := by decide
 
 end EG.C09.Generated
